@@ -22,7 +22,10 @@ RULE = (
 RULE += (
     " One program in twelve makes a synchronous asynq call that trips a lowered MAX_TASK_STACK_SIZE and is "
     "recovered from by the caller; one in twelve runs with the scheduler's own flush() call raising (the "
-    "after-flush event must still fire under every option)."
+    "after-flush event must still fire under every option). A quarter of the programs use a batch priority "
+    "derived from the items' content (undefined for an empty batch); one in twelve waits synchronously for a "
+    "task already on the scheduler's stack; a third of the flushing programs get one more run in which the "
+    "options are switched on at the first scheduler flush instead of before the run."
 )
 ASSUMPTIONS = [
     "programs whose default-option trace is not reproducible (priority ties) are skipped and counted",
